@@ -231,6 +231,9 @@ def judge(ctx, p, rng):
     # 1 complete map, mixed case, plus unused extras
     spec = [(variant_name(rng, n_), "rec") for n_ in names]
     spec.append(("unused-extra", "rec"))
+    # ('_' and '-' are different characters of a name)
+    spec.append(("unused_extra", "rec"))
+    spec.append(("Unused.Extra", "none"))
     calls, out = run("complete", spec)
     res.sig(sigbase + "|complete")
     if out != ("ok",):
@@ -238,7 +241,8 @@ def judge(ctx, p, rng):
                     "ok", list(out), detail="text=%r" % p.text)
     else:
         check_calls("complete", calls, expect_calls(skip=()))
-        if any(k == "unused-extra" for k, _ in calls):
+        if any(k in ("unused-extra", "unused_extra", "unused.extra")
+               for k, _ in calls):
             res.violate("unused-name-called", case, [], "unused-extra")
     if names and res.evaluations % 5 == 1:
         # the schema was loaded with the application's own datatype
@@ -469,6 +473,32 @@ def judge_reused_loader(ctx, p, state):
     want = p.obs[2] if p.obs[0] == "ok" else "reject"
     if p.obs[0] != "ok" and p.obs[1] != "config":
         return
+    # the handler object an earlier load of this loader returned still has
+    # that load's entries, whatever the loader has read since
+    prev = state.get("previous")
+    if prev is not None and prev[0] is state["loader"]:
+        _ld, ph, pwant, ptext = prev
+        try:
+            calls = []
+            names_ = sorted(set(h for h, _v in pwant))
+            ph(dict((n_, (lambda v, key=n_: calls.append(
+                [key, outcome.canon_value(v)]))) for n_ in names_))
+            pgot = calls if len(ph) == len(pwant) else \
+                "len() says %d" % len(ph)
+        except Exception as e:  # noqa
+            pgot = "raised %s: %s" % (type(e).__name__, str(e)[:80])
+        res.count("earlier_handler_checked_after_next_load")
+        if pgot != pwant:
+            res.violate("earlier-handler-changed-by-a-later-load", p.case(),
+                        len(pwant), pgot if isinstance(pgot, str)
+                        else len(pgot),
+                        detail="handler of the load of %r, called after the "
+                        "same loader read %r" % (ptext, p.text),
+                        vsig="earlier-handler|%s" % (
+                            pgot[:12] if isinstance(pgot, str) else "trace"))
+    state["previous"] = (state["loader"], handler, want, p.text) \
+        if isinstance(got, list) and isinstance(want, list) and got == want \
+        else None
     res.count("reused_loader_loads")
     if got != want:
         res.violate("handler-entries-differ-on-reused-loader", p.case(),
